@@ -1,7 +1,86 @@
-import PprofVerif.Base.Tok
-/- Driver operations for C03. -/
+import PprofVerif.Model.Merge
+import PprofVerif.Spec.Weight
+/- Driver operations for C03 (merge): the model (`merge.model`, `compact.model`) and the Spec
+   (`merge.spec` = expected weight table + header of a merge, `merge.abs` = weight table of one
+   profile).  Weight tables are printed as rows `count nvalues v… <stack key tokens>` separated by
+   the token `|`, sorted by their text, so that equality of tables is equality of strings. -/
 namespace Driver.C03
-open PV
+open PV PV.Merge PV.Spec
 
-def ops : List (String × (List String → String)) := []
+def outProfile : Outcome Profile → String
+  | .ok p => "ok " ++ Wr.render (Wr.profile p)
+  | .err _ => "err"
+  | .panic s => "panic " ++ s
+
+namespace W
+open PV.Wr
+def funcIdent (f : FuncIdent) : Wr := str f.name ++ str f.systemName ++ str f.filename ++ int f.startLine
+def mapIdent (m : MapIdent) : Wr := str m.buildIDOrFile ++ nat m.size ++ nat m.offset
+def lineIdent (l : LineIdent) : Wr := opt funcIdent l.fn ++ int l.line ++ int l.column
+def frameIdent (f : FrameIdent) : Wr :=
+  opt mapIdent f.mapping ++ nat f.relAddr ++ list lineIdent f.lines ++ bool f.folded
+def numLabel (x : Str × (List Int × List Str)) : Wr := str x.1 ++ list int x.2.1 ++ list str x.2.2
+def stackKey (k : StackKey) : Wr :=
+  list frameIdent k.frames ++ list (kv str) k.label ++ list numLabel k.numLabel
+def header (h : Header) : Wr :=
+  list valueType h.sampleType ++ opt valueType h.periodType ++ str h.dropFrames ++ str h.keepFrames ++
+  int h.timeNanos ++ int h.durationNanos ++ int h.period ++ list str h.comments ++
+  str h.defaultSampleType ++ str h.docURL
+end W
+
+def row (k : StackKey) (count : Nat) (v : List Int) : String :=
+  Wr.render (Wr.nat count ++ Wr.list Wr.int v ++ W.stackKey k)
+
+def renderRows (rows : List String) : String :=
+  let sorted := rows.mergeSort (fun a b => !(b < a))
+  toString sorted.length ++ sorted.foldl (fun acc r => acc ++ " | " ++ r) ""
+
+/-- distinct stack keys of a list of resolved samples, first occurrence order. -/
+def distinctKeys (rs : List RSample) : List StackKey :=
+  internBy id (rs.map stackKey)
+
+/-- `merge.abs`: every stack of `p` with the number of samples carrying it and its weight. -/
+def absTable (p : Profile) : String :=
+  match resolve p with
+  | none => "unresolvable"
+  | some rs =>
+    "ok " ++ renderRows ((distinctKeys rs).map fun k => row k (countR rs k) (weight p k))
+      ++ " # " ++ Wr.render (W.header (headerOf p))
+
+/-- `merge.spec`: what C03 promises about `Merge ps` — for every stack present in some input the
+sum of its weights (`Spec.mergedWeight`), rows that sum to all-zero removed, each stack once;
+and the documented header. -/
+def specTable (ps : List Profile) : String :=
+  match ps with
+  | [] => "err"
+  | first :: rest =>
+    if !(rest.all (compatibleB first)) then "incompatible"
+    else match optMap resolve ps with
+    | none => "unresolvable"
+    | some rss =>
+      let keys := distinctKeys rss.flatten
+      let rows := keys.filterMap fun k =>
+        let w := mergedWeight ps k
+        if isZeroV w then none else some (row k 1 w)
+      "ok " ++ renderRows rows ++ " # " ++ Wr.render (W.header (combineHeadersSpec first rest))
+
+def withProfiles (ts : List String) (f : List Profile → String) : String :=
+  match Rd.run (Rd.list Rd.profile) ts with
+  | none => "bad-op"
+  | some ps => f ps
+
+def withProfile (ts : List String) (f : Profile → String) : String :=
+  match Rd.run Rd.profile ts with
+  | none => "bad-op"
+  | some p => f p
+
+def ops : List (String × (List String → String)) := [
+  ("merge.model", fun ts => withProfiles ts fun ps => outProfile (merge ps)),
+  ("merge.once", fun ts => withProfiles ts fun ps => outProfile (mergeOnce ps)),
+  ("compact.model", fun ts => withProfile ts fun p => outProfile (compact p)),
+  ("merge.spec", fun ts => withProfiles ts specTable),
+  ("merge.abs", fun ts => withProfile ts absTable),
+  ("merge.valid", fun ts => withProfile ts fun p =>
+    if p.validB && p.mapsSorted then "1" else "0")
+]
 end Driver.C03
